@@ -6,6 +6,8 @@ import (
 	"errors"
 	"strconv"
 	"strings"
+
+	"github.com/a-h/templ"
 )
 
 // A is the single argument of every enumerated template. Accessor ids end in a number.
@@ -77,7 +79,18 @@ func (a *A) KVal(id string) string { return "k" + strconv.Itoa(int(a.Bits+uint(n
 
 // AttrsVal: the spread-attribute map for id.
 func (a *A) AttrsVal(id string) map[string]any {
-	return map[string]any{"data-" + strings.ToLower(id): a.Val(id), "hidden": a.BoolVal(id)}
+	lid := strings.ToLower(id)
+	val, empty := a.Val(id), ""
+	on, off, b := true, false, a.BoolVal(id)
+	return map[string]any{
+		"data-" + lid: val, "hidden": b,
+		// every value form templ.Attributes renders: empty strings (rendered as key=""), pointers (nil: left out),
+		// key/value pairs and functions
+		"data-e-" + lid: "", "data-pe-" + lid: &empty, "data-pv-" + lid: &val, "data-pn-" + lid: (*string)(nil),
+		"data-bt-" + lid: &on, "data-bf-" + lid: &off, "data-bn-" + lid: (*bool)(nil),
+		"data-kv-" + lid: templ.KV(val, b), "data-ke-" + lid: templ.KV("", true), "data-kb-" + lid: templ.KV(true, b),
+		"data-fn-" + lid: func() bool { return b },
+	}
 }
 
 var Valuations = []A{
